@@ -14,6 +14,7 @@
                          `clone_closed_witness_fixed`).
 -/
 import PyGqlModel.Lemmas.HeapFuel
+import PyGqlModel.Lemmas.HeapExtMembers
 import PyGqlModel.Props.C14_frames
 
 set_option linter.unusedSimpArgs false
@@ -118,5 +119,34 @@ theorem current_heal_closed (hacc : PyGql.Generated.HeapCfg.currentCfg.accumulat
     (hw : wfB h s = true) : ∃ h' s', healLoop PyGql.Generated.HeapCfg.currentCfg 2 s h = some (h', s') ∧ closedB h' s' = true :=
   let ⟨h', s', e, c, _⟩ := heal_closed _ hacc s h hw 0
   ⟨h', s', e, c⟩
+
+/-! #### member level of `untouched_preserved` for `extend_schema` -/
+
+/-- PARTIAL (member level, at the rebuild functions): every field `_extend_field` builds is a copy of a source field that keeps
+    name, description, deprecation reason, resolver, (re-pointed) type and — as far as the constructor passes them —
+    subscription resolver and python name (`FieldKept cfg`); each of its arguments is a copy of a source argument keeping
+    name, default, description, (re-pointed) type and python name (`ArgKept`). For all heaps, all member lists whose
+    objects exist. Missing for the full statement: that the rest of `extend_schema` (other types' members, the writes to the
+    placeholders) leaves these member objects alone — the `FrameX` argument of `extend_type_kept`, not yet carried to members. -/
+theorem untouched_preserved_extend_members_partial (cfg : Cfg) (N : List (String × Addr)) (as : List Addr) (h : Heap)
+    (hlt : ∀ a, a ∈ as → a < h.size) (hargs : ∀ a f, a ∈ as → h.readField a = some f → ∀ x, x ∈ f.args → x < h.size) :
+    ∀ c, c ∈ (extendFields cfg N h as).2 → ∃ a f f', a ∈ as ∧ h.readField a = some f ∧
+      (extendFields cfg N h as).1.readField c = some f' ∧ FieldKept cfg N f f' ∧
+      ∀ x, x ∈ f'.args → ∃ y g g', y ∈ f.args ∧ h.readArg y = some g ∧
+        (extendFields cfg N h as).1.readArg x = some g' ∧ ArgKept cfg.extArgPy N g g' :=
+  extendFields_kept cfg N as h h (FrameX.refl _ h) hlt hargs
+
+/-- … and for input fields / directive arguments (`_extend_argument`, the `InputField(...)` rebuild) -/
+theorem untouched_preserved_extend_args_partial (k : Bool) (N : List (String × Addr)) (as : List Addr) (h : Heap)
+    (hlt : ∀ a, a ∈ as → a < h.size) :
+    ∀ c, c ∈ (extendArgs k N h as).2 → ∃ a g g', a ∈ as ∧ h.readArg a = some g ∧
+      (extendArgs k N h as).1.readArg c = some g' ∧ ArgKept k N g g' :=
+  extendArgs_kept k N as h h (FrameX.refl _ h) hlt
+
+/-- with the fixes (`Cfg.fixed`) the kept attributes are plain equalities -/
+theorem fieldKept_fixed (N : List (String × Addr)) (f f' : FieldO) (k : FieldKept Cfg.fixed N f f') :
+    f'.name = f.name ∧ f'.desc = f.desc ∧ f'.depr = f.depr ∧ f'.res = f.res ∧ f'.sub = f.sub ∧ f'.py = f.py := by
+  obtain ⟨h1, h2, h3, h4, _, h6, h7⟩ := k
+  exact ⟨h1, h2, h3, h4, by simpa [Cfg.fixed] using h6, by simpa [Cfg.fixed] using h7⟩
 
 end PyGql.Props.C14
